@@ -290,7 +290,7 @@ func replay(tier string, raw json.RawMessage) (bool, string, string) {
 func init() {
 	core.Register(&core.Prop{
 		ID: "C18", Variant: "plain", Shards: shards, Run: run, Replay: replay,
-		Rule: "every history of the depth bound over the operations process, read and load(t) for a pool of interacting texts (typedef/identity/grouping used across modules, augment into another module and into an rpc input that is not written, deviation, a module with semantic errors, a module with a submodule, and texts that must be rejected: syntax error, unknown statement after typedefs and identities were built, missing mandatory substatement, a re-load, a different text declaring an already loaded module, a newer revision) is executed on one real Modules value; each load's verdict is predicted (valid and not yet loaded <=> nil); after every process the canonical dump or error list must equal that of a fresh set given the successfully loaded texts once each in the same order and processed once; read operations must not change the dump. states = distinct histories; transitions = operations executed; non-trivial = histories with two or more process calls",
+		Rule:        "every history of the depth bound over the operations process, read and load(t) for a pool of interacting texts (typedef/identity/grouping used across modules, augment into another module and into an rpc input that is not written, deviation, a module with semantic errors, a module with a submodule, and texts that must be rejected: syntax error, unknown statement after typedefs and identities were built, missing mandatory substatement, a re-load, a different text declaring an already loaded module, a newer revision) is executed on one real Modules value; each load's verdict is predicted (valid and not yet loaded <=> nil); after every process the canonical dump or error list must equal that of a fresh set given the successfully loaded texts once each in the same order and processed once; read operations must not change the dump. states = distinct histories; transitions = operations executed; non-trivial = histories with two or more process calls",
 		Assumptions: []string{"texts declare one module each (the library documents that a multi-module text may be partly added)", "the batch run on a fresh set is the reference"},
 	})
 }
